@@ -177,7 +177,7 @@ func keyOf(k Kid, fe, mode string) string {
 	if mode == "parse" {
 		var t string
 		switch fe {
-		case "json":
+		case "json", "zhttpjson", "zjson":
 			t = k.Tags.JSON
 		case "form":
 			t = k.Tags.Form
